@@ -1,9 +1,13 @@
 """C19 — parsers accept or reject with the documented error, never crash (and never hang); values print.
 
-Real-code oracle on six grammars (version, version constraint, string constraint, marker, PEP 508 requirement,
-dependency) over the token-level fuzz stream of `gen_fuzz`; model/implementation correspondence for the five
-modelled parsers on the same stream; `Factory.validate` / `validate_object` on type- and key-mutated mappings
-(correspondence-only: there is no Lean model of the schema engine).
+* real-code oracle on six grammars (version, version constraint, string constraint, marker, PEP 508 requirement, dependency) over
+  the token-level fuzz stream of `gen_fuzz` (strategy shares in RULE): outcome ok | documented-error | other(type) | timeout, values
+  printed and re-parsed, class-keyed violations with delta-debugged witnesses;
+* model/implementation correspondence for all six grammars on the same stream (driver ops vparse, cparse, cmparse, gparse, xparse,
+  mraw, mparse, reqparse, dep508): accept/reject, error class, printed text, structure dump;
+* a few giant inputs per grammar (clause chains, deep nesting) with a 60 s hang threshold, slower-than-5-s cases counted as `slow:*`;
+* a deterministic regex stress corpus (pump strings derived from the syntax tree of every pattern of the parser modules);
+* `Factory.validate` / `validate_object` on type- and key-mutated mappings (correspondence-only: no Lean model of the schema engine).
 """
 from __future__ import annotations
 
@@ -26,17 +30,24 @@ from . import core, gen_fuzz as GF, marker_common as MC, vc_common as V
 PROP = "C19"
 LEAN_MODULE = "PoetryVerif.Props.C19"
 RULE = ("per grammar (version, version constraint [parse_constraint + parse_marker_version_constraint], string constraint [generic + "
-        "extra], marker [parse_marker + raw tree], PEP 508 requirement, dependency [create_from_pep_508]) one seeded stream: 22% valid "
-        "inputs from the repo-grammar generators, 38% 1-3 token-level mutations of valid inputs (insert/delete/duplicate/swap/replace a "
-        "token, truncate, behead, case, odd whitespace \\t \\n \\x0b \\x0c \\x1c-\\x1f \\x85 \\xa0 U+1680 U+2000-200A U+2028/9 U+202F U+205F "
-        "U+3000 ZWSP BOM, Unicode digits, case-folding specials), 16% random sequences of valid tokens, 2.5% duplicated operators, 3.5% a 1-3 token window repeated 12-200 times with a failing tail, 6% odd "
-        "whitespace at every token boundary, 5% Unicode digits, 2.5% raw characters, 4.5% long inputs (one token repeated up to 10^4 "
-        "characters, chains of 20-1200 clauses, parentheses nested 5-3000 deep). Outcome per case on the real code: ok(text) | "
-        "documented-error | other(type) | timeout (5 s CPU, confirmed by a second run); ok values are printed and the text re-parsed. "
-        "pyproject stream: valid mappings with random optional tables, 1-3 mutations (replace a value by None/int/float/bool/str/list/"
-        "dict, delete/rename/add a key, nest up to 200 deep, graft another subtree) through Factory.validate(strict in {False, True}) and "
-        "validate_object. Non-trivial = the input parses, or is within three token mutations of a valid input, or is a token sequence "
-        "of the grammar; distinct = distinct (grammar, text).")
+        "extra], marker [parse_marker + raw tree], PEP 508 requirement, dependency [create_from_pep_508]) one seeded stream "
+        "(gen_fuzz.gen): 22% valid inputs from the repo-grammar generators; 38% 1-3 token-level mutations of a valid input "
+        "(insert/delete/duplicate/swap/replace a token, truncate, behead, case, odd whitespace \\t \\n \\x0b \\x0c \\r \\x1c-\\x1f \\x85 "
+        "\\xa0 U+1680 U+2000-200A U+2028/9 U+202F U+205F U+3000 ZWSP BOM, Unicode digits, case-folding specials); 16% random sequences of "
+        "1-12 valid tokens; 2.5% a doubled/tripled operator; 3.5% a window of 1-3 tokens repeated 12-200 times with a failing tail; 6% odd "
+        "whitespace at token boundaries; 5% Unicode digits (Arabic-Indic, fullwidth, superscript, mathematical); 2.5% raw characters; 4.5% "
+        "long inputs: 55% one token repeated to 200/2000/10^4 characters around a valid prefix/suffix, 30% chains of 10-50 clauses, 15% "
+        "parentheses/quotes nested 5-1500 deep (and-or nesting at most 8 deep). Giant inputs (label *-big; chunk 0 of each grammar; 2 in "
+        "quick, 4 in thorough): chains of 300-1000 clauses cut to 12000 characters, 60% of them uniform (one operator, distinct values), "
+        "and nesting 30-400 deep (thorough: one with random and/or at every level). Deterministic regex stress: every pattern constant, "
+        "literal re.* pattern and lark terminal of the parser modules on pump strings built from its own syntax tree (each repeatable "
+        "sub-expression taken many times after a sampled prefix, tails \\x00 / ! / none; all at 200 characters, the eight slowest at 2000; "
+        "more than 1 s CPU for one match/search, twice, is super-linear). Outcome per case on the real code: ok(text) | documented-error | "
+        "other(type) | timeout; a hang is 5 s CPU (60 s for the size strategies long-chain*/long-nest*, whose slower-than-5-s cases are "
+        "counted as slow:<parser>:<label>), confirmed by a second run; ok values are printed and the text re-parsed. pyproject stream: "
+        "valid mappings with random optional tables, 1-3 mutations (replace a value by None/int/float/bool/str/list/dict, delete/rename/"
+        "add a key, nest up to 200 deep, graft another subtree) through Factory.validate(strict in {False, True}) and validate_object. "
+        "Non-trivial = the input parses, or comes from any strategy but raw characters; distinct = distinct (grammar, text).")
 ASSUMPTIONS = [
     "Python `re`, int(), str methods and the vendored lark (LALR engine, contextual lexer) are trusted; the hand recognisers of the "
     "Lean models are tied to them by the correspondence streams of this run (accept/reject, error class, printed text, structure dump)",
@@ -47,11 +58,18 @@ ASSUMPTIONS = [
     "class and structure; URLs outside the modelled urllib fragment, file/directory dependencies (file-system probes) and markers beyond 10 leaves are "
     "real-code only (counted as model-skipped); Factory.validate / validate_object are correspondence-only (no Lean model; fastjsonschema trusted)",
     "fastjsonschema.compile is memoised per schema text by the harness (pure function; poetry-core recompiles both schemas on every validate call)",
-    "a time-out is 5 s of process CPU time (ITIMER_PROF) observed on two runs of the same input; dependency parsing runs with an empty "
+    "a hang is 5 s of process CPU time (ITIMER_PROF; 60 s for the clause-count / nesting-depth strategies, where super-linear cost is not a hang) observed on two runs of the same input; dependency parsing runs with an empty "
     "temporary directory as cwd",
 ]
 
-ALARM_S = 5.0
+ALARM_S = 5.0          # hang threshold (CPU seconds) for every strategy but the two size strategies below
+ALARM_SIZE_S = 60.0    # … for `long-chain*` / `long-nest*`: hundreds of clauses / deep nesting cost super-linear time in the algebra;
+                       # that is cost, not a hang: slower than ALARM_S is counted as `slow:<parser>:<label>`, only ALARM_SIZE_S is a hang
+SKIP_AFTER_S = 20.0    # a giant case is skipped when the previous one of the same label in the chunk took longer than this
+
+
+def alarm_for(label: str) -> float:
+    return ALARM_SIZE_S if label.startswith(("long-chain", "long-nest")) else ALARM_S
 FOLD_SPECIAL = set("\u017f\u212a\u0130\u0131")
 _DIGIT_RUN = re.compile(r"\d{4300,}")
 
@@ -172,8 +190,15 @@ def _dump(target: str, v: Any) -> str:
     return ""
 
 
-def run_one(target: str, fn: Callable[[str], Any], s: str, alarm: bool = True) -> dict[str, Any]:
-    """outcome of one parser on one input: cls ok|doc|other|timeout (+ text, dump, err, etype, site, stage)"""
+def run_one(target: str, fn: Callable[[str], Any], s: str, alarm: bool = True, label: str = "") -> dict[str, Any]:
+    """outcome of one parser on one input: cls ok|doc|other|timeout (+ text, dump, err, etype, site, stage, cpu seconds)"""
+    t0 = time.process_time()
+    o = _run_one(target, fn, s, alarm, alarm_for(label))
+    o["cpu"] = time.process_time() - t0
+    return o
+
+
+def _run_one(target: str, fn: Callable[[str], Any], s: str, alarm: bool, seconds: float) -> dict[str, Any]:
     stage = "parse"
 
     def body() -> dict[str, Any]:
@@ -195,7 +220,7 @@ def run_one(target: str, fn: Callable[[str], Any], s: str, alarm: bool = True) -
         return {"cls": "ok", "text": texts[0], "dump": dump}
 
     try:
-        return with_cpu_alarm(body) if alarm else body()
+        return with_cpu_alarm(body, seconds) if alarm else body()
     except _Timeout:
         return {"cls": "timeout", "stage": stage}
     except Exception as e:  # noqa: BLE001
@@ -218,7 +243,7 @@ def violation_of(target: str, s: str, label: str, o: dict[str, Any]) -> tuple[st
         return key, what, {"parser": target, "s": s, "label": label}
     if o["cls"] == "timeout":
         key = f"{target}:timeout:{label}"
-        what = f"{target} parser on {_short(s)} ({len(s)} chars, strategy {label}) exceeded {ALARM_S:.0f} s CPU during {o['stage']} (twice)"
+        what = f"{target} parser on {_short(s)} ({len(s)} chars, strategy {label}) exceeded {alarm_for(label):.0f} s CPU during {o['stage']} (twice)"
         return key, what, {"parser": target, "s": s, "label": label}
     return None
 
@@ -309,21 +334,32 @@ def run_cases(grammar: str, cases: list[tuple[str, str]], want_model: bool = Tru
         dist[k] = dist.get(k, 0) + n
 
     outcomes: dict[str, list[dict[str, Any]]] = {t: [] for t in targets}
+    big_cost: dict[str, float] = {}
     for idx, (s, label) in enumerate(cases):
         if idx % 1500 == 1499:
             clear_caches()
         cnt(f"{grammar}:strategy:{label}")
         any_ok = False
+        if label.endswith("-big") and big_cost.get(label, 0.0) > SKIP_AFTER_S:
+            # the previous giant input of this strategy was already expensive: do not spend the budget twice
+            cnt(f"{grammar}:skipped-giant:{label}")
+            for t in targets:
+                outcomes[t].append({"cls": "skipped"})
+            continue
         for t, fn in targets.items():
-            o = run_one(t, fn, s)
+            o = run_one(t, fn, s, label=label)
+            if label.endswith("-big"):
+                big_cost[label] = max(big_cost.get(label, 0.0), o["cpu"])
             if o["cls"] == "timeout":
-                o2 = run_one(t, fn, s)
+                o2 = run_one(t, fn, s, label=label)
                 if o2["cls"] != "timeout":
                     cnt(f"{t}:timeout-not-reproduced")
                     o = o2
                 else:
                     res["timeouts"] += 1
             outcomes[t].append(o)
+            if o["cls"] != "timeout" and o["cpu"] > ALARM_S:
+                cnt(f"slow:{t}:{label}")
             cnt(f"{t}:" + (o["cls"] if o["cls"] != "other" else "other:" + o["etype"]) + (":" + o["err"] if o["cls"] == "doc" else ""))
             any_ok = any_ok or o["cls"] == "ok"
             # `mraw` (the un-simplified tree) is the harness's own entry point for the correspondence: not judged
@@ -353,6 +389,9 @@ def run_cases(grammar: str, cases: list[tuple[str, str]], want_model: bool = Tru
             dis = 0
             for i, m in zip(idxs, replies):
                 s = cases[i][0]
+                if outcomes[t][i]["cls"] == "skipped":
+                    cnt(f"{t}:model-skipped:giant-skipped")
+                    continue
                 mv = model_view(t, m)
                 iv = impl_view(t, outcomes[t][i])
                 if mv[0] == "err" and mv[1] in ("unmodelled", "fuel"):
@@ -381,8 +420,11 @@ def gen_cases(grammar: str, seed: int, n: int, n_big: int) -> list[tuple[str, st
     for i in range(n):
         if i < n_big:
             # the few large cases of this chunk (super-linear cost in the real code): chains and nesting only
-            s, label = (GF.long_chain(rnd, grammar, rnd.choice([300, 600, 1200])) if i % 2 == 0
-                        else GF.long_nest(rnd, grammar, rnd.choice([30, 100, 400]), big=True))
+            # quick (two giants per grammar): moderate sizes, and-or nesting shallow; thorough (four): up to 1000 clauses and
+            # and-or nesting 30-400 deep (exponential in the simplifier: the `*:timeout:long-nest-big` classes)
+            deep = n_big > 2
+            s, label = (GF.long_chain(rnd, grammar, rnd.choice([300, 600, 1000] if deep else [300, 600]), uniform=rnd.random() < 0.6)
+                        if i % 2 == 0 else GF.long_nest(rnd, grammar, rnd.choice([30, 100, 400]), big=deep, alternate=(i == 3)))
             cases.append((s, label + "-big"))
         else:
             cases.append(GF.gen(grammar, rnd))
@@ -529,9 +571,9 @@ def mapping_worker(args: tuple[int, int]) -> dict[str, Any]:
 def _key_of_string(target: str, s: str, label: str) -> str | None:
     grammar = {"mvconstraint": "vconstraint", "extra": "generic", "mraw": "marker"}.get(target, target)
     fn = _targets(grammar)[target]
-    o = run_one(target, fn, s)
+    o = run_one(target, fn, s, label=label)
     if o["cls"] == "timeout":
-        o = run_one(target, fn, s)
+        o = run_one(target, fn, s, label=label)
     v = violation_of(target, s, label, o)
     return v[0] if v else None
 
@@ -539,7 +581,7 @@ def _key_of_string(target: str, s: str, label: str) -> str | None:
 def shrink_string(target: str, s: str, label: str, key: str, budget: int = 260) -> str:
     """delta debugging (chunk removal, then single-character simplification) keeping the same class key"""
     if ":timeout:" in key:
-        budget = 5
+        budget = 5 if alarm_for(label) <= ALARM_S else 1
     evals = 0
 
     def still(t: str) -> bool:
@@ -695,7 +737,7 @@ def _plan(ctx: core.Ctx, strings: int, mappings: int, chunk: int) -> tuple[list[
         size = chunk if g in ("version", "vconstraint", "generic") else max(500, chunk // 3)
         while left > 0:
             n = min(size, left)
-            n_big = 4 if (first and ctx.thorough) else 0
+            n_big = (4 if ctx.thorough else 2) if first else 0
             jobs.append((g, ctx.rng.getrandbits(48), n, n_big))
             left -= n
             first = False
@@ -783,9 +825,9 @@ def replay(ctx: core.Ctx, payload: dict[str, Any]) -> bool:
         try:
             os.chdir(tmp)
             fn = _targets(g)[t]
-            o = run_one(t, fn, w["s"])
+            o = run_one(t, fn, w["s"], label=w.get("label", "replay"))
             if o["cls"] == "timeout":
-                o = run_one(t, fn, w["s"])
+                o = run_one(t, fn, w["s"], label=w.get("label", "replay"))
             v = violation_of(t, w["s"], w.get("label", "replay"), o)
         finally:
             os.chdir(cwd)
@@ -797,7 +839,7 @@ def replay(ctx: core.Ctx, payload: dict[str, Any]) -> bool:
 
 def extra_evidence(ctx: core.Ctx) -> dict[str, Any]:
     skipped = {k: v for k, v in ctx.dist.items() if ":model-skipped:" in k}
-    return {"model_skipped": skipped, "notes": ctx.notes, "alarm_cpu_seconds": ALARM_S,
+    return {"model_skipped": skipped, "notes": ctx.notes, "alarm_cpu_seconds": ALARM_S, "alarm_cpu_seconds_size_strategies": ALARM_SIZE_S,
             "modelled_parsers": sorted(MODEL_OPS), "oracle_only": ["validate"]}
 
 
